@@ -1999,9 +1999,8 @@ def isin_array(*,
             pass
 
     assume_unique = array_is_unique and other_is_unique
-    func = np.in1d if array.ndim == 1 else np.isin
-
-    result = func(array, other, assume_unique=assume_unique) #type: ignore
+    # NOTE: np.in1d was removed in NumPy 2; np.isin gives the same result for 1D arrays
+    result = np.isin(array, other, assume_unique=assume_unique)
     result.flags.writeable = False
 
     return result
